@@ -526,7 +526,7 @@ def minimise_panic(prop, sc, api, naming):
 # ---------------------------------------------------------------- run
 def run(ctx):
     rng = ctx.rng
-    n = ctx.scale(120, 360)
+    n = ctx.scale(120, 300)
     os.makedirs(FILES, exist_ok=True)
     scs = [gen_scenario(rng, i, ctx.seed) for i in range(n)]
     # corpus: the repository's own repeated-load programs, an empty text, a directive-only text
